@@ -40,6 +40,12 @@ func writeHandMade(dir string) {
 	os.MkdirAll(dir, 0o755)
 	opts := c06.Opts{WatchWithoutClass: true}
 	write := func(name, note string, objs []client.Object) {
+		opts := opts
+		for _, o := range objs {
+			if cm, ok := o.(*api.ConfigMap); ok && cm.Name == "tcp-services" {
+				opts.TCPConfigMap = cm.Namespace + "/" + cm.Name
+			}
+		}
 		c := ocase{objs: c06.Stamp(objs), opts: opts, runs: 12, note: note}
 		b, _ := json.MarshalIndent(map[string]interface{}{"input": c.encode()}, "", " ")
 		if err := os.WriteFile(filepath.Join(dir, name+".json"), b, 0o644); err != nil {
@@ -118,6 +124,14 @@ func writeHandMade(dir string) {
 				{Path: "/", Type: "Prefix", Service: "svc2", PortNum: 80}}})
 		write("13-map-same-path-two-types", "hand made: /apix declared begin and prefix on two hosts, next to hosts with overlapping paths: the position of the extra map files decides who answers /apix",
 			append(objs, i1, i2))
+	}
+	// (f) tcp-services ConfigMap: two keys that are the same port number
+	{
+		objs := svcs("ns1", "svc1", "svc2", "svc3")
+		cm := &api.ConfigMap{}
+		cm.Namespace, cm.Name = "ingress-controller", "tcp-services"
+		cm.Data = map[string]string{"9000": "ns1/svc1:80", "09000": "ns1/svc2:80:PROXY", "+9000": "ns1/svc3:9000::PROXY-V1", "9001": "ns1/svc1:9000"}
+		write("15-tcp-configmap-same-port", "hand made: the keys 9000, 09000 and +9000 of the tcp-services ConfigMap are one port number and name three services", append(objs, cm))
 	}
 	// (e) one alias requested by four hosts, one of the ingresses also declares the alias as a host
 	{
